@@ -8,6 +8,7 @@ Import ListNotations.
 Inductive case :=
 (* slice forms *)
 | CChol (a : list float) (e : outcome (list float))
+| CTryChol (a : list float) (e : outcome (list float))
 | CCholSolve (l b : list float) (e : outcome (list float))
 | CLu (a : list float) (e : outcome (list float))
 | CLuSolve (lu : list float) (piv : list nat) (b : list float) (e : outcome (list float))
@@ -39,9 +40,14 @@ Definition piv_out (p : list nat) : list float := map (fun k => float_ofZ (Z.of_
 Definition bool_out (b : bool) : list float := [if b then 1%float else 0%float].
 Definition one_out (x : float) : list float := [x].
 
+(** [try_cholesky]: [Some l] is sent as [1 :: l], [None] as [[0]] *)
+Definition tc_out (r : option (list float)) : list float :=
+  match r with Some l => 1%float :: l | None => [0%float] end.
+
 Definition check (c : case) : bool :=
   match c with
   | CChol a e => fout_eqb (opt_out (cholesky FO0 a)) e
+  | CTryChol a e => fout_eqb (opt_out (option_map tc_out (try_cholesky FO0 a))) e
   | CCholSolve l b e => fout_eqb (opt_out (cholesky_solve FO0 l b)) e
   | CLu a e => fout_eqb (opt_out (option_map (fun r => fst r ++ piv_out (snd r)) (lu FO0 a))) e
   | CLuSolve l p b e => fout_eqb (opt_out (lu_solve FO0 l p b)) e
